@@ -26,6 +26,7 @@ Definition need_len (id m : N) : bool :=
   | 11 => true
   | 12 => (1 <=? m) && (m <=? 4)
   | 13 => 12 <=? m
+  | 14 => 3 <=? m
   | _ => false
   end.
 
@@ -56,7 +57,7 @@ Proof.
   all: len_from HL;
     first [ apply dec_paste_total | apply (dec_report_total _ Htb) | apply dec_kitty_image_total
           | apply dec_mouse_total | apply dec_devattrs_total | apply dec_kitty_keyboard_total
-          | apply dec_decmode_total | apply dec_osc_total | apply (dec_sgr_total _ Htb) | apply dec_cursor_total ];
+          | apply dec_decmode_total | apply dec_modkey_total | apply dec_osc_total | apply (dec_sgr_total _ Htb) | apply dec_cursor_total ];
     lia.
 Qed.
 
